@@ -78,7 +78,11 @@ def main():
         # a behaviour-preserving refactoring written for another property must leave this check silent too
         for m in allms:
             if m.get("patch") and m.get("expect") == "pass" and m["prop"] != a.prop:
-                x = dict(m); x["name"] = m["name"] + "@" + a.prop; x["prop"] = a.prop; x.pop("open", None)
+                x = dict(m); x["name"] = m["name"] + "@" + a.prop; x["prop"] = a.prop
+                if not (m.get("open") or a.prop in m.get("open_cross", [])):
+                    x.pop("open", None)
+                else:
+                    x["open"] = True
                 ms.append(x)
     t0 = time.time()
     res = []
